@@ -29,15 +29,32 @@ import (
 type c16Variant struct {
 	name               string
 	onWayNodes, orient bool
+	coord              string // coordinate form when it is neither N nor W (see polyg.OSMForm)
+}
+
+func (v c16Variant) form() string {
+	switch {
+	case v.coord != "":
+		return v.coord
+	case v.onWayNodes:
+		return "W"
+	}
+	return "N"
+}
+
+// further coordinate forms, converted for every input: located way nodes without refs (Z), paths
+// embedded in the members with the ways absent (M with refs, MZ without), MZ also fully annotated
+var c16MoreForms = []c16Variant{
+	{"Z", true, false, "Z"}, {"M", true, false, "M"}, {"MZ", true, false, "MZ"}, {"MZO", true, true, "MZ"},
 }
 
 // two more variants, NP / WP, are added per input: only a subset of the members is annotated
 
 var c16Variants = []c16Variant{
-	{"N", false, false}, // node objects, no orientation
-	{"W", true, false},  // annotated way nodes, no orientation
-	{"NO", false, true}, // node objects, members carry orientation
-	{"WO", true, true},  // annotated way nodes, members carry orientation
+	{"N", false, false, ""}, // node objects, no orientation
+	{"W", true, false, ""},  // annotated way nodes, no orientation
+	{"NO", false, true, ""}, // node objects, members carry orientation
+	{"WO", true, true, ""},  // annotated way nodes, members carry orientation
 }
 
 type c16Obs struct {
@@ -305,10 +322,11 @@ type c16Ctx struct {
 	// r draws the pre-annotation mixes and the degradations; seeded from the case
 	r       *gen.R
 	degrade bool
+	rot     int
 }
 
 func c16NewCtx(c fw.Case) *c16Ctx {
-	gen16 := c.Kind == "rand" || c.Kind == "grid" || c.Kind == "shared" || c.Kind == "concave"
+	gen16 := c.Kind == "rand" || c.Kind == "grid" || c.Kind == "shared" || c.Kind == "concave" || c.Kind == "tiny"
 	return &c16Ctx{Result: fw.NewResult(), sigs: map[string]bool{}, keys: map[string]bool{}, members: map[string]bool{},
 		dedupeSigs: !gen16, r: gen.New(c.Seed^0x16c16, "c16pre/"+c.Kind), degrade: gen16}
 }
@@ -477,9 +495,9 @@ func (c *c16Ctx) Put(set, member string) {
 
 // c16RunVariant converts the instance in one input shape (coordinates on node objects or on way
 // nodes; members annotated as in pre, nil = none) and judges the result against the truth.
-func c16RunVariant(res *c16Ctx, in *polyg.Instance, lookup map[orb.Point]int, shape, name string, onWayNodes bool, pre []orb.Orientation,
+func c16RunVariant(res *c16Ctx, in *polyg.Instance, lookup map[orb.Point]int, shape, name string, form string, pre []orb.Orientation,
 	detail func(map[string]any) map[string]any) (canon, raw string, usable bool) {
-	obs := c16Convert(in.OSMPre(onWayNodes, pre))
+	obs := c16Convert(in.OSMForm(form, pre))
 	res.Eval(shape + "/" + name)
 	for _, p := range obs.polys {
 		res.Event(int64(len(p)))
@@ -658,7 +676,14 @@ func c16Check(res *c16Ctx, in *polyg.Instance, family string) {
 
 	// (2) the input variants against the truth: four from the statement plus two in which only
 	// a random non-empty proper subset of the members carries its (true) orientation
-	variants := c16Variants
+	variants := append([]c16Variant(nil), c16Variants...)
+	if res.degrade {
+		variants = append(variants, c16MoreForms...)
+	} else {
+		// enumerated families: one of the further coordinate forms per input, in rotation
+		variants = append(variants, c16MoreForms[res.rot%len(c16MoreForms)])
+		res.rot++
+	}
 	var partial []orb.Orientation
 	if np := len(in.Pieces); np >= 2 {
 		partial = make([]orb.Orientation, np)
@@ -673,7 +698,7 @@ func c16Check(res *c16Ctx, in *polyg.Instance, family string) {
 			}
 			ok = n > 0 && n < np
 		}
-		variants = append(append([]c16Variant(nil), c16Variants...), c16Variant{"NP", false, true}, c16Variant{"WP", true, true})
+		variants = append(variants, c16Variant{"NP", false, true, ""}, c16Variant{"WP", true, true, ""})
 	}
 	canon := make([]string, len(variants))
 	raw := make([]string, len(variants))
@@ -686,7 +711,7 @@ func c16Check(res *c16Ctx, in *polyg.Instance, family string) {
 		if len(v.name) == 2 && v.name[1] == 'P' {
 			pre = partial
 		}
-		canon[vi], raw[vi], usable[vi] = c16RunVariant(res, in, lookup, shape, v.name, v.onWayNodes, pre, detail)
+		canon[vi], raw[vi], usable[vi] = c16RunVariant(res, in, lookup, shape, v.name, v.form(), pre, detail)
 	}
 	// (3) the result is the same across the variants (up to start vertex / list order)
 	for vi := 1; vi < len(variants); vi++ {
@@ -905,7 +930,7 @@ func c16EnumTwo(res *c16Ctx) int {
 // hexagon and of the staircase east of it. split=false: every ring one closed way, all 120
 // member orders. split=true: every outer in two pieces (one reversed), 8 members: all 40320
 // orders when perms<=0, else every "outer X listed last" rotation of perms fixed-PRNG orders.
-func c16EnumGrid(res *c16Ctx, split bool, perms int) int {
+func c16EnumGrid(res *c16Ctx, split bool, perms int, first int) int {
 	const step, bx, by = 10_000, 123_000_000, 456_000_000
 	mk := func(cs ...[2]int64) []polyg.Pt {
 		out := make([]polyg.Pt, len(cs))
@@ -945,7 +970,11 @@ func c16EnumGrid(res *c16Ctx, split bool, perms int) int {
 	}
 	count := 0
 	if perms <= 0 {
+		// all orders whose first member is piece `first` (the family is split over np cases)
 		c16Perms(np, func(p []int) {
+			if first >= 0 && p[0] != first {
+				return
+			}
 			c16Check(res, base.WithOrder(p), family)
 			count++
 		})
@@ -1003,8 +1032,8 @@ func c16EnumPartial(res *c16Ctx, revMasks []uint) int {
 				} else if sub == 1<<uint(np)-1 {
 					name = "O"
 				}
-				c16RunVariant(res, in, lookup, shape, "N"+name, false, pre, detail)
-				c16RunVariant(res, in, lookup, shape, "W"+name, true, pre, detail)
+				c16RunVariant(res, in, lookup, shape, "N"+name, "N", pre, detail)
+				c16RunVariant(res, in, lookup, shape, "W"+name, "W", pre, detail)
 				count++
 			}
 		})
@@ -1335,7 +1364,7 @@ func c16Exec(c fw.Case) *fw.Result {
 		if res.Sample == nil {
 			res.Sample = map[string]any{"truths": n}
 		}
-	case "grid", "concave":
+	case "grid", "concave", "tiny":
 		n := int(c.Int("n"))
 		for i := 0; i < n; i++ {
 			r := gen.New(gen.Sub(c.Seed, "c16grid", i), "c16g")
@@ -1354,6 +1383,10 @@ func c16Exec(c fw.Case) *fw.Result {
 					fam = "concave-in"
 					res.Add("concave_truths_hole_bbox_centre_inside_other_outer", 1)
 				}
+			} else if c.Kind == "tiny" {
+				t, _ = polyg.GenerateTiny(r)
+				fam = "tiny"
+				res.Add("tiny_truths", 1)
 			} else {
 				t, _ = polyg.GenerateGrid(r)
 			}
@@ -1438,7 +1471,7 @@ func c16Exec(c fw.Case) *fw.Result {
 		res.Sample = map[string]any{"family": "outer in 3 ways + hole in 2 ways: every subset of members annotated x every member order x reversal masks", "reversal_masks": masks, "inputs": cnt}
 		res.Add("enumerated_inputs", int64(cnt))
 	case "enum-grid":
-		cnt := c16EnumGrid(res, c.Int("split") == 1, int(c.Int("perms")))
+		cnt := c16EnumGrid(res, c.Int("split") == 1, int(c.Int("perms")), int(c.Int("first"))-1)
 		res.Sample = map[string]any{"family": "three outers in a row on an integer lattice (square with hole, hexagon, staircase with hole), hole vertices at the latitudes of pass-through vertices of the outers east of them; member orders enumerated", "split": c.Int("split"), "inputs": cnt}
 		res.Add("enumerated_inputs", int64(cnt))
 	case "enum-ring":
@@ -1466,6 +1499,7 @@ func init() {
 			"Every input is also converted with only a random subset of members annotated (NP, WP; enum-partial: all subsets x orders), and sets of 2-4 relations sharing border ways (kind shared) go through one Convert call in every relation order, each relation judged against its own truth. " +
 			"Concave truths (kind concave: thick-snake outers with corridor holes, further outers in the notch) and placements on the ends of the coordinate range (origin edge, enum-edge) are part of the case list. " +
 			"Every generated input is also annotated as a history of 2-3 relation versions in one call (member ways reversed / split by new way versions between relation versions; signature suffix H<versions>). " +
+			"Further coordinate forms per input: located way nodes without refs (Z), paths embedded in Member.Nodes with the ways absent (M, MZ, MZO); tiny truths (kind tiny: rings 1-12 coordinate steps across at +-179.9 / +-89.9 / mid-latitudes). " +
 			"A signature is (family, #outers, holes per outer, cut classes present, reversal class, +node member, variant); distinct_nontrivial counts distinct signatures.",
 		Assumptions: []string{
 			"'the result is the same' is read up to ring start vertex, order of holes within a polygon and order of polygons; winding, closure and the cyclic vertex sequence are compared exactly (float64 bit patterns)",
@@ -1480,7 +1514,7 @@ func init() {
 		Cases: func(tier string, seed uint64) []fw.Case {
 			nCases, per := 60, 25
 			if tier == "thorough" {
-				nCases, per = 4000, 250
+				nCases, per = 2000, 250
 			}
 			var cs []fw.Case
 			for i := 0; i < nCases; i++ {
@@ -1529,11 +1563,20 @@ func init() {
 			for i := 0; i < concCases; i++ {
 				cs = append(cs, fw.Case{Kind: "concave", Seed: gen.Sub(seed, "c16concavecase", i), P: map[string]int64{"n": int64(concPer)}})
 			}
+			tinyCases, tinyPer := 20, 15
+			if tier == "thorough" {
+				tinyCases, tinyPer = 200, 60
+			}
+			for i := 0; i < tinyCases; i++ {
+				cs = append(cs, fw.Case{Kind: "tiny", Seed: gen.Sub(seed, "c16tinycase", i), P: map[string]int64{"n": int64(tinyPer)}})
+			}
 			cs = append(cs, fw.Case{Kind: "enum-edge"})
 			cs = append(cs, fw.Case{Kind: "enum-history"})
 			cs = append(cs, fw.Case{Kind: "enum-grid", P: map[string]int64{"split": 0}})
 			if tier == "thorough" {
-				cs = append(cs, fw.Case{Kind: "enum-grid", P: map[string]int64{"split": 1, "perms": 0}})
+				for first := int64(1); first <= 8; first++ { // 8 members: one case per first member
+					cs = append(cs, fw.Case{Kind: "enum-grid", P: map[string]int64{"split": 1, "perms": 0, "first": first}})
+				}
 			} else {
 				cs = append(cs, fw.Case{Kind: "enum-grid", P: map[string]int64{"split": 1, "perms": 300}})
 			}
